@@ -200,3 +200,337 @@ MUTANTS += [
          "        if item_type == \"*\" or value_type == \"*\":\n            return True\n        if item_type != value_type:\n            return False\n        if value_subtype == \"*\":\n            return True\n        return item_subtype == value_subtype and item_params == value_params")]},
     {"name": "mime-specificity-loop-inverted", "expect": "R17.3", "edits": [(A, _MIME_SPEC, '        out = []\n        for part in _mime_split_re.split(value):\n            out.append(part == "*")\n        return tuple(out)')]},
 ]
+
+
+# ---- round 2: flags computed on one branch structure and tested later, values through helpers / lambdas / keyword arguments ----
+_BM = (
+    "        result = default\n        best_quality: float = -1\n        best_specificity: tuple[float, ...] = (-1,)\n        for server_item in matches:\n"
+    "            match = self._best_single_match(server_item)\n" + _LOOP_BODY + "        return result\n"
+)
+_BM_HEAD = (
+    "        result = default\n        best_quality: float = -1\n        best_specificity: tuple[float, ...] = (-1,)\n        for server_item in matches:\n"
+    "            match = self._best_single_match(server_item)\n            if match is None:\n                continue\n            client_item, quality = match\n"
+)
+_BM_TAIL = "                result = server_item\n                best_quality = quality\n                best_specificity = specificity\n        return result\n"
+
+
+def _bm(mid: str, tail: str = _BM_TAIL) -> list:
+    return [(A, _BM, _BM_HEAD + mid + tail)]
+
+
+_FLAG_ELIF = (
+    "            if quality <= 0:\n                continue\n            specificity = self._specificity(client_item)\n"
+    "            if quality > best_quality:\n                better = True\n            elif quality == best_quality:\n                better = specificity > best_specificity\n"
+    "            else:\n                better = False\n            if better:\n"
+)
+_FLAG_DEFAULT = (
+    "            specificity = self._specificity(client_item)\n            replace = False\n            if quality > 0:\n"
+    "                if quality > best_quality:\n                    replace = True\n                elif quality == best_quality and specificity > best_specificity:\n                    replace = True\n"
+    "            if replace:\n"
+)
+_FLAG_NAMED = (
+    "            specificity = self._specificity(client_item)\n            acceptable = quality > 0\n            higher = quality > best_quality\n            tie = quality == best_quality\n"
+    "            more_specific = specificity > best_specificity\n            if acceptable and (higher or (tie and more_specific)):\n"
+)
+_FLAG_SKIP = (
+    "            specificity = self._specificity(client_item)\n            skip = True if quality <= 0 else quality < best_quality\n            if skip:\n                continue\n"
+    "            wins = quality > best_quality\n            wins |= specificity > best_specificity\n            if wins:\n"
+)
+_FLAG_NEGATED = (
+    "            specificity = self._specificity(client_item)\n            if quality <= 0 or quality < best_quality:\n                keep_earlier = True\n"
+    "            else:\n                keep_earlier = not (quality > best_quality or specificity > best_specificity)\n            if keep_earlier:\n                continue\n"
+)
+_FLAG_NEGATED_TAIL = "            result = server_item\n            best_quality = quality\n            best_specificity = specificity\n        return result\n"
+
+TWINS += [
+    {"name": "flag-if-elif-else-then-tested", "edits": _bm(_FLAG_ELIF)},
+    {"name": "flag-default-false-overridden-in-branches", "edits": _bm(_FLAG_DEFAULT)},
+    {"name": "flags-named-conjuncts-combined", "edits": _bm(_FLAG_NAMED)},
+    {"name": "flag-conditional-expression-and-augmented-or", "edits": _bm(_FLAG_SKIP)},
+    {"name": "flag-negated-keeps-earlier", "edits": _bm(_FLAG_NEGATED, _FLAG_NEGATED_TAIL)},
+]
+
+_QHELPER_FLAGS = (
+    "def _quality_of(raw):\n    text = raw.strip()\n    well_formed = _q_value_re.fullmatch(text) is not None\n    if not well_formed:\n        return None\n"
+    "    number = float(text)\n    in_range = 0 <= number <= 1\n    return number if in_range else None\n\n\n"
+)
+_PAH_FLAGS = (
+    '        if "q" in options:\n            q_str = options.pop("q").strip()\n            q_ok = bool(_q_value_re.fullmatch(q_str))\n\n            if not q_ok:\n                continue\n\n'
+    "            q = float(q_str)\n            out_of_range = q < 0 or q > 1\n\n            if out_of_range:\n                continue\n        else:\n            q = 1\n"
+)
+_PAH_FLAG_BRANCHES = (
+    '        if "q" in options:\n            q_str = options.pop("q").strip()\n\n            if _q_value_re.fullmatch(q_str) is None:\n                usable = False\n            else:\n'
+    "                q = float(q_str)\n                usable = 0 <= q <= 1\n\n            if not usable:\n                continue\n        else:\n            q = 1\n"
+)
+_PAH_PATTERN_FLAG_BRANCHES = (
+    '        if "q" in options:\n            q_str = options.pop("q").strip()\n\n            if _q_value_re.fullmatch(q_str):\n                numeric = True\n            else:\n                numeric = False\n\n'
+    "            if not numeric:\n                continue\n\n            q = float(q_str)\n\n" + _RANGE + "        else:\n            q = 1\n"
+)
+_QHELPER_PAIR = (
+    "def _read_quality(raw):\n    text = raw.strip()\n    if _q_value_re.fullmatch(text) is None:\n        return False, 0.0\n"
+    "    number = float(text)\n    return 0 <= number <= 1, number\n\n\n"
+)
+_PAH_PAIR = '        q = 1\n\n        if "q" in options:\n            ok, q = _read_quality(options.pop("q"))\n\n            if not ok:\n                continue\n'
+_QHELPER_RAISES = (
+    "def _checked_quality(raw):\n    text = raw.strip()\n    if _q_value_re.fullmatch(text) is None:\n        raise ValueError(text)\n"
+    "    number = float(text)\n    if number < 0 or number > 1:\n        raise ValueError(text)\n    return number\n\n\n"
+)
+_PAH_RAISES = '        q = 1\n\n        if "q" in options:\n            try:\n                q = _checked_quality(options.pop("q"))\n            except ValueError:\n                continue\n'
+_PAH_IFEXP = '        q = _accept_quality(options.pop("q")) if "q" in options else 1\n\n        if q is None:\n            continue\n'
+_PAH_GROUP = (
+    '        if "q" in options:\n            q_match = _q_value_re.fullmatch(options.pop("q").strip())\n\n            if q_match is None:\n                continue\n\n'
+    "            q = float(q_match.group())\n\n" + _RANGE + "        else:\n            q = 1\n"
+)
+_PAH_RANGE_PREDICATE = "            if not _unit_interval(q):\n                continue\n"
+
+TWINS += [
+    {"name": "q-helper-with-named-flags", "edits": [(H, _OVERLOAD, _QHELPER_FLAGS + _OVERLOAD), (H, _PAH, _PAH_HELPER.replace("_accept_quality", "_quality_of"))]},
+    {"name": "q-parser-named-flags", "edits": [(H, _PAH, _PAH_FLAGS)]},
+    {"name": "q-parser-usable-flag-set-on-branches", "edits": [(H, _PAH, _PAH_FLAG_BRANCHES)]},
+    {"name": "q-parser-pattern-flag-set-on-branches", "edits": [(H, _PAH, _PAH_PATTERN_FLAG_BRANCHES)]},
+    {"name": "q-helper-returns-flag-and-value", "edits": [(H, _OVERLOAD, _QHELPER_PAIR + _OVERLOAD), (H, _PAH, _PAH_PAIR)]},
+    {"name": "q-helper-raises-caller-skips", "edits": [(H, _OVERLOAD, _QHELPER_RAISES + _OVERLOAD), (H, _PAH, _PAH_RAISES)]},
+    {"name": "q-helper-called-in-conditional-expression", "edits": [(H, _OVERLOAD, _QHELPER + _OVERLOAD), (H, _PAH, _PAH_IFEXP)]},
+    {"name": "q-float-of-match-group", "edits": [(H, _PAH, _PAH_GROUP)]},
+    {"name": "q-range-check-in-predicate-helper", "edits": [(H, _OVERLOAD, "def _unit_interval(x):\n    return 0 <= x <= 1\n\n\n" + _OVERLOAD), (H, _RANGE, _PAH_RANGE_PREDICATE)]},
+]
+
+_C17_5_FLAG = (
+    "            specificity = self._specificity(client_item)\n            if quality <= 0:\n                continue\n            if quality < best_quality:\n                continue\n"
+    "            if quality > best_quality:\n                is_better = True\n            else:\n                is_better = specificity > best_specificity\n            if is_better:\n"
+)
+_TUPLE_TAIL = "                result = server_item\n                best_quality, best_specificity = quality, specificity\n        return result\n"
+
+TWINS += [
+    {"name": "flag-if-else-after-split-continues-tuple-update", "edits": _bm(_C17_5_FLAG, _TUPLE_TAIL)},
+]
+
+MUTANTS += [
+    # ---- R17.2: defects in the flag shapes ----
+    {"name": "flag-if-else-tie-sets-flag", "expect": "R17.2", "edits": _bm(_C17_5_FLAG.replace("is_better = specificity > best_specificity", "is_better = specificity >= best_specificity"), _TUPLE_TAIL)},
+    {"name": "flag-if-else-constant-inverted", "expect": "R17.2", "edits": _bm(_C17_5_FLAG.replace("is_better = True", "is_better = False"), _TUPLE_TAIL)},
+    {"name": "flag-elif-lower-quality-compares-specificity", "expect": "R17.2", "edits": _bm(_FLAG_ELIF.replace("            else:\n                better = False\n", "            else:\n                better = specificity > best_specificity\n"))},
+    {"name": "flag-default-override-forgets-equal-quality", "expect": "R17.2", "edits": _bm(_FLAG_DEFAULT.replace("elif quality == best_quality and specificity > best_specificity:", "elif specificity > best_specificity:"))},
+    {"name": "flag-default-true", "expect": "R17.2", "edits": _bm(_FLAG_DEFAULT.replace("replace = False\n", "replace = True\n"))},
+    {"name": "flags-named-tie-conjunct-dropped", "expect": "R17.2", "edits": _bm(_FLAG_NAMED.replace("(higher or (tie and more_specific))", "(higher or more_specific)"))},
+    {"name": "flags-named-acceptable-includes-zero", "expect": "R17.2", "edits": _bm(_FLAG_NAMED.replace("acceptable = quality > 0", "acceptable = quality >= 0"))},
+    {"name": "flag-conditional-expression-arms-swapped", "expect": "R17.2", "edits": _bm(_FLAG_SKIP.replace("skip = True if quality <= 0 else quality < best_quality", "skip = quality < best_quality if quality <= 0 else True"))},
+    {"name": "flag-augmented-and-instead-of-or", "expect": "R17.2", "edits": _bm(_FLAG_SKIP.replace("wins |= ", "wins &= "))},
+    {"name": "flag-negation-dropped", "expect": "R17.2", "edits": _bm(_FLAG_NEGATED.replace("keep_earlier = not (quality > best_quality or specificity > best_specificity)", "keep_earlier = quality > best_quality or specificity > best_specificity"), _FLAG_NEGATED_TAIL)},
+    # ---- R17.1: defects in the flag / helper shapes ----
+    {"name": "q-helper-flag-polarity-flipped", "expect": "R17.1", "edits": [(H, _OVERLOAD, _QHELPER_FLAGS.replace("fullmatch(text) is not None", "fullmatch(text) is None") + _OVERLOAD), (H, _PAH, _PAH_HELPER.replace("_accept_quality", "_quality_of"))]},
+    {"name": "q-helper-range-flag-loses-upper-bound", "expect": "R17.1", "edits": [(H, _OVERLOAD, _QHELPER_FLAGS.replace("in_range = 0 <= number <= 1", "in_range = 0 <= number") + _OVERLOAD), (H, _PAH, _PAH_HELPER.replace("_accept_quality", "_quality_of"))]},
+    {"name": "q-parser-range-flag-loses-upper-bound", "expect": "R17.1", "edits": [(H, _PAH, _PAH_FLAGS.replace("out_of_range = q < 0 or q > 1", "out_of_range = q < 0"))]},
+    {"name": "q-parser-pattern-flag-tested-without-not", "expect": "R17.1", "edits": [(H, _PAH, _PAH_FLAGS.replace("if not q_ok:", "if q_ok:"))]},
+    {"name": "q-parser-usable-flag-ignores-range", "expect": "R17.1", "edits": [(H, _PAH, _PAH_FLAG_BRANCHES.replace("usable = 0 <= q <= 1", "usable = True"))]},
+    {"name": "q-parser-pattern-flag-true-on-both-branches", "expect": "R17.1", "edits": [(H, _PAH, _PAH_PATTERN_FLAG_BRANCHES.replace("numeric = False", "numeric = True"))]},
+    {"name": "q-parser-pattern-flag-branches-swapped", "expect": "R17.1", "edits": [(H, _PAH, _PAH_PATTERN_FLAG_BRANCHES.replace("                numeric = True\n            else:\n                numeric = False\n", "                numeric = False\n            else:\n                numeric = True\n"))]},
+    {"name": "q-pair-helper-flag-always-true", "expect": "R17.1", "edits": [(H, _OVERLOAD, _QHELPER_PAIR.replace("return 0 <= number <= 1, number", "return True, number") + _OVERLOAD), (H, _PAH, _PAH_PAIR)]},
+    {"name": "q-pair-helper-malformed-reported-ok", "expect": "R17.1", "edits": [(H, _OVERLOAD, _QHELPER_PAIR.replace("return False, 0.0", "return True, 0.0") + _OVERLOAD), (H, _PAH, _PAH_PAIR)]},
+    {"name": "q-pair-caller-ignores-flag", "expect": "R17.1", "edits": [(H, _OVERLOAD, _QHELPER_PAIR + _OVERLOAD), (H, _PAH, _PAH_PAIR.replace("            if not ok:\n                continue\n", "            if ok is None:\n                continue\n"))]},
+    {"name": "q-raising-helper-handler-falls-through", "expect": "R17.1", "edits": [(H, _OVERLOAD, _QHELPER_RAISES + _OVERLOAD), (H, _PAH, _PAH_RAISES.replace("            except ValueError:\n                continue\n", "            except ValueError:\n                pass\n"))]},
+    {"name": "q-raising-helper-handler-too-narrow", "expect": "R17.1", "edits": [(H, _OVERLOAD, _QHELPER_RAISES + _OVERLOAD), (H, _PAH, _PAH_RAISES.replace("except ValueError:", "except KeyError:"))]},
+    {"name": "q-raising-helper-range-not-checked", "expect": "R17.1", "edits": [(H, _OVERLOAD, _QHELPER_RAISES.replace("    if number < 0 or number > 1:\n        raise ValueError(text)\n", "") + _OVERLOAD), (H, _PAH, _PAH_RAISES)]},
+    {"name": "q-conditional-expression-default-zero", "expect": "R17.1", "edits": [(H, _OVERLOAD, _QHELPER + _OVERLOAD), (H, _PAH, _PAH_IFEXP.replace("else 1\n", "else 0\n"))]},
+    {"name": "q-conditional-expression-rejection-kept", "expect": "R17.1", "edits": [(H, _OVERLOAD, _QHELPER + _OVERLOAD), (H, _PAH, _PAH_IFEXP.replace("        if q is None:\n            continue\n", "        if q is None:\n            q = 1\n"))]},
+    {"name": "q-match-group-prefix-match", "expect": "R17.1", "edits": [(H, _PAH, _PAH_GROUP.replace("_q_value_re.fullmatch(", "_q_value_re.match("))]},
+    {"name": "q-match-group-one-instead-of-whole", "expect": "R17.1", "edits": [(H, _PAH, _PAH_GROUP.replace("q_match.group()", "q_match.group(1)"))]},
+    {"name": "q-range-predicate-loses-upper-bound", "expect": "R17.1", "edits": [(H, _OVERLOAD, "def _unit_interval(x):\n    return 0 <= x\n\n\n" + _OVERLOAD), (H, _RANGE, _PAH_RANGE_PREDICATE)]},
+]
+
+_OUTRANKS_FLAG = (
+    "    def _outranks(self, q, s, bq, bs):\n        if q != bq:\n            verdict = q > bq\n        else:\n            verdict = s > bs\n        return verdict\n\n    @property\n    def best(self)"
+)
+_RANK_NONE_STATE = (
+    "        result = default\n        best_rank = None\n        for server_item in matches:\n            match = self._best_single_match(server_item)\n            if match is None:\n                continue\n"
+    "            client_item, quality = match\n            if quality <= 0:\n                continue\n            rank = (quality, self._specificity(client_item))\n"
+    "            if best_rank is None or rank > best_rank:\n                best_rank = rank\n                result = server_item\n        return result\n"
+)
+_RANK_LAMBDA = (
+    "        result = default\n        best_rank: tuple[float, tuple[float, ...]] = (-1, (-1,))\n        rank_of = lambda pair: (pair[1], self._specificity(pair[0]))  # noqa: E731\n        for server_item in matches:\n"
+    "            match = self._best_single_match(server_item)\n            if not match or match[1] <= 0:\n                continue\n            rank = rank_of(match)\n"
+    "            if rank > best_rank:\n                best_rank = rank\n                result = server_item\n        return result\n"
+)
+_RANK_NESTED_DEF = _RANK_LAMBDA.replace(
+    "        rank_of = lambda pair: (pair[1], self._specificity(pair[0]))  # noqa: E731\n",
+    "\n        def rank_of(pair):\n            return pair[1], self._specificity(pair[0])\n\n")
+_COLLECT_THEN_SCAN = (
+    "        candidates = []\n        for server_item in matches:\n            match = self._best_single_match(server_item)\n            if match is not None and match[1] > 0:\n"
+    "                candidates.append((match[1], self._specificity(match[0]), server_item))\n        result = default\n        best_quality: float = -1\n        best_specificity: tuple[float, ...] = (-1,)\n"
+    "        for quality, specificity, server_item in candidates:\n            if (quality, specificity) > (best_quality, best_specificity):\n                result = server_item\n"
+    "                best_quality = quality\n                best_specificity = specificity\n        return result\n"
+)
+_MAX_KEY = (
+    "        ranked = []\n        for server_item in matches:\n            match = self._best_single_match(server_item)\n            if match is not None and match[1] > 0:\n"
+    "                ranked.append((match[1], self._specificity(match[0]), server_item))\n        if not ranked:\n            return default\n"
+    "        # max() returns the first of several maximal elements: the earliest offer wins ties\n        return max(ranked, key=lambda entry: entry[:2])[2]\n"
+)
+
+TWINS += [
+    {"name": "loop-comparison-method-with-verdict-flag", "edits": [(A, _REPL, "            if self._outranks(quality, specificity, best_quality, best_specificity):\n"), (A, "    @property\n    def best(self)", _OUTRANKS_FLAG)]},
+    {"name": "rank-state-starts-as-none", "edits": [(A, _BM, _RANK_NONE_STATE)]},
+    {"name": "rank-through-local-lambda", "edits": [(A, _BM, _RANK_LAMBDA)]},
+    {"name": "rank-through-nested-function", "edits": [(A, _BM, _RANK_NESTED_DEF)]},
+    {"name": "candidates-collected-then-scanned", "edits": [(A, _BM, _COLLECT_THEN_SCAN)]},
+    {"name": "candidates-collected-then-max", "edits": [(A, _BM, _MAX_KEY)]},
+]
+
+_BSM_LISTCOMP = "        hits = [(rng, q) for rng, q in self if self._value_matches(match, rng)]\n        return hits[0] if hits else None"
+_BSM_FLAG_LOOP = (
+    "        answer = None\n        found = False\n        for rng, q in self:\n            if not found and self._value_matches(match, rng):\n                answer = (rng, q)\n                found = True\n        return answer"
+)
+_BSM_INDEX = (
+    "        for position in range(len(self)):\n            if self._value_matches(match, self[position][0]):\n                return self[position]\n        return None"
+)
+_QUALITY = "        for item, quality in self:\n            if self._value_matches(key, item):\n                return quality\n        return 0"
+
+TWINS += [
+    {"name": "single-match-first-of-filtered-list", "edits": [(A, _BSM, _BSM_LISTCOMP)]},
+    {"name": "single-match-scan-with-found-flag", "edits": [(A, _BSM, _BSM_FLAG_LOOP)]},
+    {"name": "single-match-indexed-scan", "edits": [(A, _BSM, _BSM_INDEX)]},
+    {"name": "quality-first-of-filtered-list", "edits": [(A, _QUALITY, "        qualities = [q for rng, q in self if self._value_matches(key, rng)]\n        if qualities:\n            return qualities[0]\n        return 0")]},
+]
+MUTANTS += [
+    {"name": "single-match-last-of-filtered-list", "expect": "R17.3", "edits": [(A, _BSM, _BSM_LISTCOMP.replace("hits[0]", "hits[-1]"))]},
+    {"name": "single-match-found-flag-not-set", "expect": "R17.3", "edits": [(A, _BSM, _BSM_FLAG_LOOP.replace("                found = True\n", ""))]},
+    {"name": "quality-filtered-list-miss-is-one", "expect": "R17.3", "edits": [(A, _QUALITY, "        qualities = [q for rng, q in self if self._value_matches(key, rng)]\n        if qualities:\n            return qualities[0]\n        return 1")]},
+    {"name": "candidates-max-prefers-later-on-ties", "expect": "R17.2", "edits": [(A, _BM, _MAX_KEY.replace("max(ranked, key=lambda entry: entry[:2])[2]", "max(reversed(ranked), key=lambda entry: entry[:2])[2]"))]},
+    {"name": "candidates-max-specificity-major", "expect": "R17.2", "edits": [(A, _BM, _MAX_KEY.replace("key=lambda entry: entry[:2]", "key=lambda entry: (entry[1], entry[0])"))]},
+    {"name": "candidates-collected-including-zero-quality", "expect": "R17.2", "edits": [(A, _BM, _COLLECT_THEN_SCAN.replace("match[1] > 0", "match[1] >= 0"))]},
+    {"name": "rank-none-state-never-replaced", "expect": "R17.2", "edits": [(A, _BM, _RANK_NONE_STATE.replace("if best_rank is None or rank > best_rank:", "if best_rank is None:"))]},
+    {"name": "rank-lambda-specificity-major", "expect": "R17.2", "edits": [(A, _BM, _RANK_LAMBDA.replace("(pair[1], self._specificity(pair[0]))", "(self._specificity(pair[0]), pair[1])").replace("(-1, (-1,))", "((-1,), -1)"))]},
+    {"name": "verdict-flag-method-ties-replace", "expect": "R17.2", "edits": [(A, _REPL, "            if self._outranks(quality, specificity, best_quality, best_specificity):\n"), (A, "    @property\n    def best(self)", _OUTRANKS_FLAG.replace("verdict = s > bs", "verdict = s >= bs"))]},
+]
+
+_LA_BODY = (
+    "        result = super().best_match(matches)\n\n        if result is not None:\n            return result\n\n"
+    "        # Fall back to accepting primary tags. If a client accepts\n        # \"en-US\", \"en\" is a valid match at this point. Need to use\n        # re.split to account for 2 or 3 letter codes.\n"
+    + _LANG_FALLBACK + "        result = fallback.best_match(matches)\n\n        if result is not None:\n            return result\n\n"
+    "        # Fall back to matching primary tags. If the client accepts\n        # \"en\", \"en-US\" is a valid match at this point.\n" + _LANG_STAGE3
+    + "\n        # Return a value from the original match list. Find the first\n        # original value that starts with the matched primary tag.\n        if result is not None:\n" + _MAPBACK + "\n\n        return default\n"
+)
+_LA_SEQUENTIAL = (
+    "        result = super().best_match(matches)\n\n        if result is None:\n            result = Accept(\n                [(_locale_delim_re.split(tag, maxsplit=1)[0], q) for tag, q in self]\n            ).best_match(matches)\n\n"
+    "        if result is None:\n            primary = super().best_match(\n                [_locale_delim_re.split(offer, maxsplit=1)[0] for offer in matches]\n            )\n\n"
+    "            if primary is not None:\n                result = next(\n                    offer\n                    for offer in matches\n                    if _locale_delim_re.split(offer, maxsplit=1)[0] == primary\n                )\n\n"
+    "        return default if result is None else result\n"
+)
+_LA_LAMBDA_MAP = (
+    "        primary_of = lambda tag: _locale_delim_re.split(tag, 1)[0]  # noqa: E731\n        result = super().best_match(matches)\n\n        if result is not None:\n            return result\n\n"
+    "        result = Accept([(primary_of(tag), q) for tag, q in self]).best_match(matches)\n\n        if result is not None:\n            return result\n\n"
+    "        result = super().best_match(list(map(primary_of, matches)))\n\n        if result is None:\n            return default\n\n"
+    "        return next(filter(lambda offer: primary_of(offer) == result, matches))\n"
+)
+_LA_HELPER_METHODS = (
+    "        result = super().best_match(matches)\n\n        if result is not None:\n            return result\n\n        result = self._primary_ranges().best_match(matches)\n\n        if result is not None:\n            return result\n\n"
+    "        return self._match_offer_primaries(matches, default)\n\n"
+    "    def _primary_ranges(self):\n        return Accept(\n            [(_locale_delim_re.split(item[0], 1)[0], item[1]) for item in self]\n        )\n\n"
+    "    def _match_offer_primaries(self, matches, default):\n        primary = super().best_match(\n            [_locale_delim_re.split(item, 1)[0] for item in matches]\n        )\n\n"
+    "        for item in matches:\n            if primary is not None and _locale_delim_re.split(item, 1)[0] == primary:\n                break\n        else:\n            return default\n\n        return item\n"
+)
+_LA_REVERSED_DICT = _LA_BODY.replace(_LANG_STAGE3, "        by_primary = {\n            _locale_delim_re.split(item, 1)[0]: item for item in reversed(list(matches))\n        }\n        result = super().best_match(list(reversed(list(by_primary))))\n").replace(_MAPBACK, "            return by_primary[result]")
+
+TWINS += [
+    {"name": "language-stages-sequential-result-variable-keyword-maxsplit", "edits": [(A, _LA_BODY, _LA_SEQUENTIAL)]},
+    {"name": "language-primary-tag-lambda-map-filter", "edits": [(A, _LA_BODY, _LA_LAMBDA_MAP)]},
+    {"name": "language-stages-in-helper-methods", "edits": [(A, _LA_BODY, _LA_HELPER_METHODS)]},
+    {"name": "language-first-offer-per-tag-by-reversed-dict", "edits": [(A, _LA_BODY, _LA_REVERSED_DICT)]},
+]
+
+MUTANTS += [
+    {"name": "language-sequential-stage2-forgets-q", "expect": "R17.2", "edits": [(A, _LA_BODY, _LA_SEQUENTIAL.replace("[(_locale_delim_re.split(tag, maxsplit=1)[0], q) for tag, q in self]", "[(_locale_delim_re.split(tag, maxsplit=1)[0], 1) for tag, q in self]"))]},
+    {"name": "language-sequential-stage3-result-not-mapped-back", "expect": "R17.2", "edits": [(A, _LA_BODY, _LA_SEQUENTIAL.replace("        return default if result is None else result\n", "            result = primary\n\n        return default if result is None else result\n"))]},
+    {"name": "language-filter-lambda-prefix-test", "expect": "R17.2", "edits": [(A, _LA_BODY, _LA_LAMBDA_MAP.replace("primary_of(offer) == result", "offer.startswith(result)"))]},
+    {"name": "language-helper-method-fallback-object-is-language-accept", "expect": "R17.2", "edits": [(A, _LA_BODY, _LA_HELPER_METHODS.replace("        return Accept(\n", "        return LanguageAccept(\n"))]},
+    {"name": "language-helper-method-scan-never-stops", "expect": "R17.2", "edits": [(A, _LA_BODY, _LA_HELPER_METHODS.replace("                break\n", "                continue\n"))]},
+    {"name": "language-dict-without-reversal-keeps-last-offer", "expect": "R17.2", "edits": [(A, _LA_BODY, _LA_REVERSED_DICT.replace("for item in reversed(list(matches))", "for item in matches").replace("list(reversed(list(by_primary)))", "list(by_primary)"))]},
+]
+
+TWINS += [
+    {"name": "init-two-stable-passes", "edits": [(A, _SORT, "            ordered = list(values)\n            ordered.sort(key=lambda x: x[1], reverse=True)\n            ordered.sort(key=lambda x: self._specificity(x[0]), reverse=True)\n            super().__init__(ordered)\n")]},
+    {"name": "init-sorted-result-wrapped-in-list", "edits": [(A, _SORT, "            super().__init__(\n                list(sorted(values, key=lambda x: (self._specificity(x[0]), x[1]), reverse=True))\n            )\n")]},
+    {"name": "init-sort-key-bound-method", "edits": [(A, _SORT, "            super().__init__(sorted(values, key=self._sort_key, reverse=True))\n"), (A, "    @property\n    def best(self)", "    def _sort_key(self, pair):\n        return self._specificity(pair[0]), pair[1]\n\n    @property\n    def best(self)")]},
+]
+MUTANTS += [
+    {"name": "init-two-stable-passes-wrong-order", "expect": "R17.3", "edits": [(A, _SORT, "            ordered = list(values)\n            ordered.sort(key=lambda x: self._specificity(x[0]), reverse=True)\n            ordered.sort(key=lambda x: x[1], reverse=True)\n            super().__init__(ordered)\n")]},
+    {"name": "init-sorted-list-reversed-twice-loses-stability", "expect": "R17.3", "edits": [(A, _SORT, "            super().__init__(\n                list(reversed(sorted(values, key=lambda x: (self._specificity(x[0]), x[1]))))\n            )\n")]},
+]
+
+_PAH_LOOP = (
+    "    for item in parse_list_header(value):\n        item, options = parse_options_header(item)\n\n" + _PAH
+    + "\n        if options:\n            # reconstruct the media type with any options\n            item = dump_options_header(item, options)\n\n        result.append((item, q))\n"
+)
+_ITEM_HELPER = (
+    "def _parse_accept_item(raw):\n    item, options = parse_options_header(raw)\n\n    if \"q\" in options:\n        q_str = options.pop(\"q\").strip()\n\n"
+    "        if _q_value_re.fullmatch(q_str) is None:\n            return None\n\n        q = float(q_str)\n\n        if q < 0 or q > 1:\n            return None\n    else:\n        q = 1\n\n"
+    "    if options:\n        item = dump_options_header(item, options)\n\n    return item, q\n\n\n"
+)
+_PAH_LOOP_ITEM_HELPER = "    for raw in parse_list_header(value):\n        entry = _parse_accept_item(raw)\n\n        if entry is None:\n            continue\n\n        result.append(entry)\n"
+_PAH_LOOP_ITEM_HELPER_WALRUS = "    for raw in parse_list_header(value):\n        if (entry := _parse_accept_item(raw)) is not None:\n            result.append(entry)\n"
+
+TWINS += [
+    {"name": "pair-built-into-local-before-append", "edits": [(H, "        result.append((item, q))\n", "        entry = (item, q)\n        result.append(entry)\n")]},
+    {"name": "item-parsing-in-helper-returning-pair-or-none", "edits": [(H, _OVERLOAD, _ITEM_HELPER + _OVERLOAD), (H, _PAH_LOOP, _PAH_LOOP_ITEM_HELPER)]},
+    {"name": "item-parsing-in-helper-walrus-positive-test", "edits": [(H, _OVERLOAD, _ITEM_HELPER + _OVERLOAD), (H, _PAH_LOOP, _PAH_LOOP_ITEM_HELPER_WALRUS)]},
+]
+MUTANTS += [
+    {"name": "item-helper-range-check-dropped", "expect": "R17.1", "edits": [(H, _OVERLOAD, _ITEM_HELPER.replace("        if q < 0 or q > 1:\n            return None\n", "") + _OVERLOAD), (H, _PAH_LOOP, _PAH_LOOP_ITEM_HELPER)]},
+    {"name": "item-helper-malformed-q-defaults-to-one", "expect": "R17.1", "edits": [(H, _OVERLOAD, _ITEM_HELPER.replace("        if _q_value_re.fullmatch(q_str) is None:\n            return None\n\n        q = float(q_str)\n", "        if _q_value_re.fullmatch(q_str) is None:\n            return item, 1\n\n        q = float(q_str)\n") + _OVERLOAD), (H, _PAH_LOOP, _PAH_LOOP_ITEM_HELPER)]},
+    {"name": "item-helper-none-result-appended", "expect": "R17.1", "edits": [(H, _OVERLOAD, _ITEM_HELPER + _OVERLOAD), (H, _PAH_LOOP, _PAH_LOOP_ITEM_HELPER.replace("        if entry is None:\n            continue\n\n", ""))]},
+    {"name": "item-helper-pair-dropped-by-inverted-test", "expect": "R17.1", "edits": [(H, _OVERLOAD, _ITEM_HELPER + _OVERLOAD), (H, _PAH_LOOP, _PAH_LOOP_ITEM_HELPER_WALRUS.replace("is not None", "is None"))]},
+    {"name": "item-helper-pattern-prefix-match", "expect": "R17.1", "edits": [(H, _OVERLOAD, _ITEM_HELPER.replace("fullmatch", "match") + _OVERLOAD), (H, _PAH_LOOP, _PAH_LOOP_ITEM_HELPER)]},
+]
+
+MUTANTS += [
+    {"name": "malformed-q-replaced-by-default-quality", "expect": "R17.1", "edits": [(H, _PAH, '        if "q" in options:\n            q_str = options.pop("q").strip()\n\n            if _q_value_re.fullmatch(q_str) is None:\n                q = 1\n            else:\n                q = float(q_str)\n\n' + "    " + _RANGE.replace("\n", "\n    ")[:-4] + "        else:\n            q = 1\n")]},
+    {"name": "helper-malformed-q-returns-default-quality", "expect": "R17.1", "edits": [(H, _OVERLOAD, _QHELPER.replace("    if not _q_value_re.fullmatch(text):\n        return None\n", "    if not _q_value_re.fullmatch(text):\n        return 1\n") + _OVERLOAD), (H, _PAH, _PAH_HELPER)]},
+]
+
+_SORTED_RANKING = (
+    "        candidates = [\n            (found[1], self._specificity(found[0]), server_item)\n            for server_item in matches\n"
+    "            if (found := self._best_single_match(server_item)) is not None and found[1] > 0\n        ]\n"
+    "        # sorted() is stable: among equally ranked offers the one the caller listed first stays first\n"
+    "        ranked = sorted(candidates, key=lambda entry: (entry[0], entry[1]), reverse=True)\n        return ranked[0][2] if ranked else default\n"
+)
+_WALRUS_LOOP = _BM.replace("            match = self._best_single_match(server_item)\n            if not match:\n                continue\n", "            if (match := self._best_single_match(server_item)) is None:\n                continue\n")
+_COPIED_OFFERS = _BM.replace("        for server_item in matches:\n", "        offers = list(matches)\n        for position in range(len(offers)):\n            server_item = offers[position]\n")
+_WHILE_ITER = _BM.replace("        for server_item in matches:\n            match = self._best_single_match(server_item)\n            if not match:\n                continue\n",
+    "        pending = list(matches)\n        while pending:\n            server_item = pending.pop(0)\n            match = self._best_single_match(server_item)\n            if not match:\n                continue\n")
+
+TWINS += [
+    {"name": "candidates-ranked-by-stable-sorted", "edits": [(A, _BM, _SORTED_RANKING)]},
+    {"name": "loop-match-bound-by-walrus", "edits": [(A, _BM, _WALRUS_LOOP)]},
+    {"name": "loop-over-copied-offers-by-index", "edits": [(A, _BM, _COPIED_OFFERS)]},
+    {"name": "loop-while-pending-pop", "edits": [(A, _BM, _WHILE_ITER)]},
+]
+MUTANTS += [
+    {"name": "candidates-ranked-by-sorted-takes-last", "expect": "R17.2", "edits": [(A, _BM, _SORTED_RANKING.replace("ranked[0][2]", "ranked[-1][2]"))]},
+    {"name": "loop-while-pending-pops-from-the-end", "expect": "R17.2", "edits": [(A, _BM, _WHILE_ITER.replace("pending.pop(0)", "pending.pop()"))]},
+]
+
+_PAH_FLAG_RETESTED = (
+    '        if "q" in options:\n            q_str = options.pop("q").strip()\n            q_ok = bool(_q_value_re.fullmatch(q_str))\n\n            if q_ok:\n                q = float(q_str)\n\n'
+    "            if not q_ok or q < 0 or q > 1:\n                continue\n        else:\n            q = 1\n"
+)
+_PAH_MARKER = (
+    '        if "q" in options:\n            q_str = options.pop("q").strip()\n            q = float(q_str) if _q_value_re.fullmatch(q_str) else -1.0\n\n'
+    "            if not 0 <= q <= 1:\n                continue\n        else:\n            q = 1\n"
+)
+TWINS += [
+    {"name": "q-parser-pattern-flag-tested-twice", "edits": [(H, _PAH, _PAH_FLAG_RETESTED)]},
+    {"name": "q-parser-marker-value-for-malformed-text", "edits": [(H, _PAH, _PAH_MARKER)]},
+]
+MUTANTS += [
+    {"name": "q-parser-flag-retest-dropped", "expect": "R17.1", "edits": [(H, _PAH, _PAH_FLAG_RETESTED.replace("            if not q_ok or q < 0 or q > 1:\n", "            if not q_ok:\n                q = 1\n\n            if q < 0 or q > 1:\n"))]},
+    {"name": "q-parser-marker-inside-the-range", "expect": "R17.1", "edits": [(H, _PAH, _PAH_MARKER.replace("else -1.0", "else 0.0"))]},
+]
+
+TWINS += [
+    {"name": "base-match-operands-normalised-by-tuple-assignment", "edits": [(A, _BASE_VM, '        accepted, offered = item.lower(), value.lower()\n        return item == "*" or accepted == offered')]},
+    {"name": "language-match-mismatch-returns-false-first", "edits": [(A, _LANG_VM, '        if item != "*" and _normalize_lang(value) != _normalize_lang(item):\n            return False\n        return True')]},
+    {"name": "charset-match-wildcard-flag", "edits": [(A, _CHARSET_VM, '        any_charset = item == "*"\n        same = any_charset or _normalize(value) == _normalize(item)\n        return same')]},
+]
+MUTANTS += [
+    {"name": "base-match-tuple-assignment-one-side-raw", "expect": "R17.4", "edits": [(A, _BASE_VM, '        accepted, offered = item.lower(), value\n        return item == "*" or accepted == offered')]},
+    {"name": "language-match-mismatch-test-ignores-wildcard", "expect": "R17.4", "edits": [(A, _LANG_VM, '        if _normalize_lang(value) != _normalize_lang(item):\n            return False\n        return True')]},
+]
